@@ -89,7 +89,7 @@ CHECKS.update({
     "C12": ("dbscen", "exploration",
             "runtime monitoring: byte-equality oracle over compilations under varied thread pools, injected delays and query orders",
             "Whole projects are compiled repeatedly on fresh databases inside rayon pools of 1/2/4/16 threads with seeded delays at "
-            "the warm-up task boundaries (hook H4), seeded prefixes of unrelated queries and both query orders; diagnostics, Sierra "
+            "the warm-up task boundaries (hook H4), seeded prefixes of unrelated queries (whole-crate diagnostics / Sierra on clones in parallel, another crate first, the Sierra of single functions in a seeded order) and both query orders; diagnostics, Sierra "
             "(debug-name and canonical), CASM and contract classes must equal the single-threaded reference byte for byte. The "
             "number of distinct raw-intern-id fingerprints shows how many distinguishable interleavings were actually observed. "
             "Thorough tier: the quick workload is repeated under ThreadSanitizer (-Zbuild-std, sanitizer_leg.sh tsan), and a "
@@ -167,7 +167,7 @@ CHECKS.update({
             "DESIGN.md 3/C05"),
     "C06": ("opmatrix", "exploration",
             "runtime monitoring: big-integer model evaluated next to compiled one-operation programs; exhaustive over 8-bit operands for the listed operations",
-            "746 (type, operation) wrappers (incl. bounded-int division by 27 constants and constrain at the same boundaries) are compiled and run on every 2^k, 2^k+-1 of the type (unary) or on each of them against several partners (binary), on structured operands 2^a+-2^b+-c and random ones; add, sub "
+            "More than 750 (type, operation) wrappers (every operation trait under corelib/src/num/traits/ops incl. wide_square, bounded-int division by 27 constants and constrain at the same boundaries) are compiled and run on every 2^k, 2^k+-1 of the type (unary) or on each of them against several partners (binary), on structured operands 2^a+-2^b+-c and random ones; add, sub "
             "and mul on u8 and i8 are run on ALL 65536 operand pairs in the quick tier, every binary operation on u8/i8 in the "
             "thorough tier. The result (value, or panic vs value) is compared with ordinary integer arithmetic; a VM error on an honest run is a violation.",
             "Trusted: the model (integer arithmetic, truncating signed division, mod-P felt arithmetic).",
